@@ -366,7 +366,7 @@ func checkC16(c *Ctx, r *Report) {
 	if fn != nil {
 		// past the true edge of Accept, every exit passes `defer CompleteRequest(p)`
 		var acceptTrue []CFGEdge
-		for _, b := range fn.Blocks {
+		for _, b := range blocksDeep(fn) {
 			for s := range b.Succs {
 				if edgeBool(isCallResult(0, acceptK), true)(b, s) {
 					acceptTrue = append(acceptTrue, CFGEdge{b, s})
@@ -481,7 +481,11 @@ func checkC16(c *Ctx, r *Report) {
 			if !ok || !isCount(v) {
 				return false
 			}
-			return up.Block().Dominates(lk.Block()) && (up.Block() != lk.Block() || instrIndex(up) < instrIndex(lk))
+			at := rootSite(f, lk) // (a read inside a local predicate happens where the predicate is called)
+			if at == nil {
+				return false
+			}
+			return up.Block().Dominates(at.Block()) && (up.Block() != at.Block() || instrIndex(up) < instrIndex(at))
 		}
 		isZero := func(v ssa.Value) bool { k, ok := constInt(v); return ok && k == 0 }
 		for _, d := range dels {
